@@ -262,5 +262,8 @@ def real_hh(b0, ln, c0, c1, na, nr):
 
 
 def real_hh_phi(phi, c0):
-    ok = _hh_roundtrip(2, 1, 1, float(phi), 7, 1, c0, c0, c0, 0)
-    return ok, f"phi={phi} round trip " + ("ok" if ok else "does not reproduce the sketch")
+    for ph in [float(phi), 0.7, 0.9, 0.35, 0.01, 1.0 / 3.0]:
+        ok = _hh_roundtrip(2, 1, 1, ph, 7, 1, c0, c0, c0, 0)
+        if not ok:
+            return False, f"HeavyHitters(2,1,1,phi={ph!r}): save -> load does not reproduce the sketch (phi / tables / bookkeeping differ)"
+    return True, "round trips reproduce the sketches"
